@@ -25,7 +25,8 @@ from .data import (Calendar, TimePoint,
                    get_timepoint_for_now as now2point)
 from .dumpers import TimePointDumper
 from .parsers import TimePointParser, DurationParser, TimeRecurrenceParser
-from metomi.isodatetime.exceptions import OffsetValueError
+from metomi.isodatetime.exceptions import (
+    OffsetValueError, StrftimeSyntaxError)
 
 
 class DateTimeOperator(object):
@@ -242,7 +243,8 @@ class DateTimeOperator(object):
         try:
             return self.time_point_parser.strptime(
                 time_point_str, parse_format)
-        except ValueError:
+        except StrftimeSyntaxError:
+            # A directive we do not support (e.g. %a, %b): leave it to time.
             return self.get_datetime_strptime(time_point_str, parse_format)
 
     @staticmethod
